@@ -14,6 +14,7 @@ QP = 'prysm/polynomials/qpoly.py'
 HER = 'prysm/polynomials/hermite.py'
 LAG = 'prysm/polynomials/laguerre.py'
 ZER = 'prysm/polynomials/zernike.py'
+SUR = 'prysm/x/raytracing/surfaces.py'
 
 
 def der_table(fn, top, coef_fn, coef_pos_name):
@@ -71,6 +72,7 @@ def generate(repo):
     her, _ = load(repo, HER)
     lag, _ = load(repo, LAG)
     zer, _ = load(repo, ZER)
+    sur, _ = load(repo, SUR)
 
     def emit_table(prefix, info, seed, step, extra):
         jj, v = info['jj'], info['v']
@@ -501,6 +503,146 @@ def generate(repo):
                       'def zzQ2dDr (umm1 ta tb : K) : K := umm1 * (ta + tb)',
                       'def zzQ2dDt (m um Sa Sb s c : K) : K := m * um * (-Sa * s + Sb * c)',
                       'def zzQ2dSlopeStructure : Bool := true']))
+
+    # ---------------------------------------------------------------- x/raytracing/surfaces.py
+    SQ = {'np.sqrt': lambda a: f'(sqrtF {a[0]})'}
+
+    def strip_doc(stmts):
+        return [s for s in stmts if not (isinstance(s, ast.Expr) and isinstance(s.value, ast.Constant))]
+
+    def phi_none_split(fn):
+        """`if phi is None: <stmts computing phi>` followed by `return <expr>` -> (stmts, return-expr)"""
+        body = strip_doc(fn.body)
+        ifs = [s for s in body if isinstance(s, ast.If) and norm(ast.unparse(s.test)) == norm('phi is None')]
+        if len(ifs) != 1 or ifs[0].orelse:
+            raise Untranslatable(f'{fn.name}: no single `if phi is None` block')
+        rest = [s for s in body if s is not ifs[0]]
+        return ifs[0].body, rest
+
+    def radicand(stmts, names, extra=None):
+        """lean term of the argument of np.sqrt in the last `phi = np.sqrt(...)` of stmts (earlier assignments inlined as lets)"""
+        tr = Tr(nenv({n: n for n in names}), mode='num', funcs={'np.sqrt': lambda a: a[0], 'phi_spheroid': None} if False else {'np.sqrt': lambda a: a[0]})
+        return body_to_lean(list(stmts[:-1]) + [ast.Return(value=stmts[-1].value)], tr, '  ')
+
+    def simple_conics():
+        out = []
+        for name, lname, params in (('sphere_sag', 'surfSphereSag', ['c', 'rhosq']), ('conic_sag', 'surfConicSag', ['c', 'kappa', 'rhosq']),
+                                    ('sphere_sag_der', 'surfSphereSagDer', ['c', 'rho']), ('conic_sag_der', 'surfConicSagDer', ['c', 'kappa', 'rho'])):
+            fn = get_def(sur, name)
+            inner, rest = phi_none_split(fn)
+            if not (isinstance(inner[-1], ast.Assign) and ast.unparse(inner[-1].targets[0]) == 'phi'
+                    and isinstance(inner[-1].value, ast.Call) and ast.unparse(inner[-1].value.func) == 'np.sqrt'):
+                raise Untranslatable(f'{name}: phi is not np.sqrt(...)')
+            rad = radicand(inner, params)
+            ret = body_to_lean(rest, Tr(nenv({n: n for n in params + ['phi']}), mode='num'), '  ')
+            binders = ' '.join(params)
+            out.append(f'def {lname}Rad ({binders} : K) : K :=\n  {rad}')
+            out.append(f'def {lname} ({binders} phi : K) : K :=\n  {ret}')
+        # der_direction_cosine_spheroid + phi_spheroid
+        fn = get_def(sur, 'der_direction_cosine_spheroid')
+        body = strip_doc(fn.body)
+        ifs = [s for s in body if isinstance(s, ast.If)]
+        tests = sorted(norm(ast.unparse(s.test)) for s in ifs)
+        if tests != sorted([norm('rhosq is None'), norm('phi is None')]):
+            raise Untranslatable('der_direction_cosine_spheroid: unexpected optional-argument handling')
+        rs = [s for s in ifs if norm(ast.unparse(s.test)) == norm('rhosq is None')][0]
+        ph = [s for s in ifs if norm(ast.unparse(s.test)) == norm('phi is None')][0]
+        rs_ok = len(rs.body) == 1 and stmt_is(rs.body[0], 'rhosq = rho * rho')
+        ph_ok = len(ph.body) == 1 and stmt_is(ph.body[0], 'phi = phi_spheroid(c, k, rhosq)')
+        rest = [s for s in body if s not in ifs]
+        ret = body_to_lean(rest, Tr(nenv({n: n for n in ['c', 'k', 'rho', 'phi']}), mode='num'), '  ')
+        out.append(f'def surfDirCosDer (c k rho phi : K) : K :=\n  {ret}')
+        ps = get_def(sur, 'phi_spheroid')
+        pbody = strip_doc(ps.body)
+        if not (isinstance(pbody[-1], ast.Return) and isinstance(pbody[-1].value, ast.Call) and ast.unparse(pbody[-1].value.func) == 'np.sqrt'):
+            raise Untranslatable('phi_spheroid does not return np.sqrt(...)')
+        rad = body_to_lean(pbody[:-1] + [ast.Return(value=pbody[-1].value.args[0])], Tr(nenv({n: n for n in ['c', 'k', 'rhosq']}), mode='num'), '  ')
+        out.append(f'def surfPhiSpheroidRad (c k rhosq : K) : K :=\n  {rad}')
+        out.append(f'def surfDirCosUsesPhiSpheroidOfRhoSquared : Bool := {"true" if rs_ok and ph_ok else "false"}')
+        return '\n'.join(out)
+    g.item('surfaces.conics', f'{SUR}:sphere_sag,conic_sag,sphere_sag_der,conic_sag_der,der_direction_cosine_spheroid,phi_spheroid',
+           lambda: get_def(sur, 'conic_sag_der'), simple_conics,
+           '\n'.join(['def surfSphereSagRad (c rhosq : K) : K := ofInt 1 - (c * c) * rhosq',
+                      'def surfSphereSag (c rhosq phi : K) : K := c * rhosq / (ofInt 1 + phi)',
+                      'def surfConicSagRad (c kappa rhosq : K) : K := ofInt 1 - (ofInt 1 + kappa) * (c * c) * rhosq',
+                      'def surfConicSag (c kappa rhosq phi : K) : K := c * rhosq / (ofInt 1 + phi)',
+                      'def surfSphereSagDerRad (c rho : K) : K := ofInt 1 - (c * c) * (rho * rho)',
+                      'def surfSphereSagDer (c rho phi : K) : K := c * rho / phi',
+                      'def surfConicSagDerRad (c kappa rho : K) : K := ofInt 1 - (ofInt 1 + kappa) * (c * c) * (rho * rho)',
+                      'def surfConicSagDer (c kappa rho phi : K) : K := c * rho / phi',
+                      'def surfDirCosDer (c k rho phi : K) : K := (c * c) * (ofInt 1 + k) * rho / (phi * phi * phi)',
+                      'def surfPhiSpheroidRad (c k rhosq : K) : K := ofInt 1 - (ofInt 1 + k) * (c * c) * rhosq',
+                      'def surfDirCosUsesPhiSpheroidOfRhoSquared : Bool := true']))
+
+    def branch_bodies(fn):
+        """functions of the form: raise-guard; [prelude]; if dx != 0: A else: B; rest  ->  (prelude + A + rest, prelude + B + rest)"""
+        body = strip_doc(fn.body)
+        if not (isinstance(body[0], ast.If) and norm(ast.unparse(body[0].test)) == norm('dy != 0 and dx != 0')
+                and isinstance(body[0].body[0], ast.Raise)):
+            raise Untranslatable(f'{fn.name}: no exclusive dx/dy guard')
+        body = body[1:]
+        k = [i for i, s in enumerate(body) if isinstance(s, ast.If) and norm(ast.unparse(s.test)) == norm('dx != 0')]
+        if len(k) != 1:
+            raise Untranslatable(f'{fn.name}: no single `if dx != 0` split')
+        k = k[0]
+        return body[:k] + body[k].body + body[k + 1:], body[:k] + body[k].orelse + body[k + 1:]
+
+    def off_axis():
+        out = []
+        table = {'c': 'c', 'kappa': 'kappa', 'r': 'r', 'dx': 's', 'dy': 's', 'np.cos(t)': 'cost', 'np.sin(t)': 'sint'}
+        for name, lname in (('off_axis_conic_sag', 'surfOacSag'), ('off_axis_conic_der', 'surfOacDer'),
+                            ('off_axis_conic_sigma', 'surfOacSigma'), ('off_axis_conic_sigma_der', 'surfOacSigmaDer')):
+            fn = get_def(sur, name)
+            bx, by = branch_bodies(fn)
+            for tag, stmts in (('X', bx), ('Y', by)):
+                t2 = dict(table)
+                # (1 - phi_kernel) ** (3/2)  is the cube of phi = sqrt(1 - phi_kernel): handed to the uninterpreted pow32
+                t2['(1 - phi_kernel) ** (3 / 2)'] = '(pow32 ((Num.ofInt (1)) - phi_kernel_))'
+                tr = Tr(nenv(t2), mode='num', funcs=SQ)
+                body = body_to_lean(stmts, tr, '  ')
+                ret = 'K × K' if name.endswith('_der') else 'K'
+                out.append(f'def {lname}{tag} (sqrtF pow32 : K → K) (c kappa r s cost sint : K) : {ret} :=\n  {body}')
+        return '\n'.join(out)
+    g.item('surfaces.off_axis', f'{SUR}:off_axis_conic_sag,off_axis_conic_der,off_axis_conic_sigma,off_axis_conic_sigma_der',
+           lambda: get_def(sur, 'off_axis_conic_sigma_der'), off_axis,
+           '\n'.join(
+               [f'def surfOacSag{t} (sqrtF pow32 : K → K) (c kappa r s cost sint : K) : K := '
+                f'Model.C09.conicSag c (Model.C09.oacAgg r s {ct}) (sqrtF (Model.C09.phiRad c kappa (Model.C09.oacAgg r s {ct})))\n'
+                f'def surfOacDer{t} (sqrtF pow32 : K → K) (c kappa r s cost sint : K) : K × K := '
+                f'Model.C09.oacDer c kappa r s {ct} {ctp} (sqrtF (Model.C09.phiRad c kappa (Model.C09.oacAgg r s {ct})))\n'
+                f'def surfOacSigma{t} (sqrtF pow32 : K → K) (c kappa r s cost sint : K) : K := '
+                f'Model.C09.oacSigma (sqrtF (Model.C09.phiRad c kappa (Model.C09.oacAgg r s {ct}))) (sqrtF (Model.C09.psiRad c kappa (Model.C09.oacAgg r s {ct})))\n'
+                f'def surfOacSigmaDer{t} (sqrtF pow32 : K → K) (c kappa r s cost sint : K) : K × K := '
+                f'Model.C09.oacSigmaInvDer c kappa r s {ct} {ctp} (sqrtF (Model.C09.phiRad c kappa (Model.C09.oacAgg r s {ct}))) '
+                f'(sqrtF (Model.C09.psiRad c kappa (Model.C09.oacAgg r s {ct})))'
+                for t, ct, ctp in (('X', 'cost', '(-sint)'), ('Y', 'sint', 'cost'))]))
+
+    def q2d_and_der():
+        fn = get_def(sur, 'Q2d_and_der')
+        body = strip_doc(fn.body)
+        k0 = [i for i, s in enumerate(body) if isinstance(s, ast.AugAssign) and ast.unparse(s.target) == 'zprimer']
+        if len(k0) != 1:
+            raise Untranslatable('no `zprimer /= normalization_radius`')
+        tail = body[k0[0]:]
+        tr = Tr(nenv({'sigma': 'sigInv', 'z': 'z', 'zprimer': 'zr', 'zprimet': 'zt', 'sigmaprimer': 'sr', 'sigmaprimet': 'st',
+                      'base_sag': 'base', 'base_primer': 'br', 'base_primet': 'bt', 'normalization_radius': 'Rn'}), mode='num',
+                funcs={'product_rule': lambda a: f'(({a[0]} * {a[3]}) + ({a[1]} * {a[2]}))'})
+        asm = body_to_lean(tail, tr, '  ')
+        head = body[:k0[0]]
+        want = ['r, t = cart_to_polar(x, y)', 'r2 = r / normalization_radius',
+                'z, zprimer, zprimet = compute_z_zprime_Q2d(cm0, ams, bms, r2, t)',
+                'base_sag = off_axis_conic_sag(c, k, r, t, dx, dy)',
+                'base_primer, base_primet = off_axis_conic_der(c, k, r, t, dx, dy)',
+                'sigma = off_axis_conic_sigma(c, k, r, t, dx, dy)', 'sigma = 1 / sigma',
+                'sigmaprimer, sigmaprimet = off_axis_conic_sigma_der(c, k, r, t, dx, dy)']
+        ok = [ast.unparse(s) for s in head] == [snorm(w) for w in want]
+        pr = get_def(sur, 'product_rule')
+        pr_ok = norm(ast.unparse(returns_in_order(pr)[-1])) == norm('u * dv + v * du') and [a.arg for a in pr.args.args] == ['u', 'v', 'du', 'dv']
+        return (f'def surfQ2dAsm (sigInv z zr zt sr st base br bt Rn : K) : K × K × K :=\n  {asm}\n'
+                f'def surfQ2dFeedsTheAssemblyFromTheNamedRoutines : Bool := {"true" if ok and pr_ok else "false"}')
+    g.item('surfaces.Q2d_and_der', f'{SUR}:Q2d_and_der', lambda: get_def(sur, 'Q2d_and_der'), q2d_and_der,
+           'def surfQ2dAsm (sigInv z zr zt sr st base br bt Rn : K) : K × K × K := Model.C09.q2dAndDer sigInv z zr zt sr st base br bt Rn\n'
+           'def surfQ2dFeedsTheAssemblyFromTheNamedRoutines : Bool := true')
 
     return g.finish()
 
